@@ -48,6 +48,9 @@ CLAIMED["C15"] = ("The six Pipe builders are modelled as trees; theorems over R:
 CLAIMED["C17"] = ("polar_array is proved (for every subtree, count and degrees <= 360) to be the subtree plus exactly count placements rotate([0,0,-k*step]) of the unmodified subtree, with step = 360/count for a full circle and degrees/(count-1) otherwise (peeling theorem by induction over the fold); external_cylinder_chamfer is proved to be the union of one ring cutter and the same ring under translate([0,0,h]) rotate([180,0,0]) — the mirror image about the mid-height plane composed with y -> -y, which fixes a full revolve — built from the chamfer outline revolved with the requested angle and $fn. Model = crate on every generated case; the same structure is checked on the implementation's trees.",
   "Real arithmetic; 'distinct placements' is read as the placement list (copy 0 coincides with the unrotated base).",
   "Lean 4 theorems (induction over the fold) + exact structural oracle + differential correspondence harness", "5/C17")
+CLAIMED["C19"] = ("Refinement theorem: for every seed and every output position, across any number of in-place regenerations, the model generator's output equals temper(x_{k+624}) of the reference sequence (x_0 = seed, x_i = 6069*x_{i-1}, x_{k+624} = x_{k+397} xor twist(x_k, x_{k+1})) — proved by a loop invariant over the three regeneration loops (cells below kk already hold the next block), with the constants regenerated from rng.rs on every run and kernel-checked against the paper's. Range maps: f32_0_1 in [0,1) (exact rational (u>>8)/2^24, which f32 represents exactly), i32_minmax in [min,max) and f32/f64_minmax in [min,max] in exact arithmetic. The model equals the crate bit for bit (u32 stream, f32 and f64 results) and the reference stream, executed independently in Lean, is compared with the implementation's stream for fixed and random seeds over thousands of positions; every raw value near the top of the range goes through the maps.",
+  "PARTIAL for i32_minmax/f32_minmax: the f32 rounding of the product is not modelled (exact arithmetic only; checked per run on the implementation). The 6069 seeding multiplier is the documented one (the 1998 reference code used 69069). MersenneTwister::new (clock seed) is not modelled.",
+  "Lean 4 refinement proof (loop invariant over array updates) + decide over regenerated constants + reference stream oracle + differential correspondence harness", "5/C19")
 NOT_YET = {
 }
 ALL = ["C%02d" % i for i in range(1, 20)]
